@@ -229,13 +229,14 @@ Definition run_roundtrip (rc : rtcase) : pyval :=
       match ctor vt w0 dynamic vs fs kw with
       | (w1, root, OOk) =>
           let '(w2, final) :=
-            (fix go (ops : list (list pstep * xop leaf)) (w : world) (root : cfg) : world * cfg :=
+            (fix go (ops : list (list pstep * xop leaf)) (w : world) (last : kept leaf) (root : cfg) : world * cfg :=
                match ops with
                | [] => (w, root)
                | (ps, o) :: r =>
-                   let '(w', root', _) := at_path_x leaf lvalidate lto_python ldefault l_callable lflag (vrun vt) ps w [] root dynamic vs fs o in
-                   go r w' root'
-               end) ops w1 root in
+                   let '(w', last', root', _) :=
+                     at_path_xs leaf lvalidate lto_python ldefault l_callable lflag (vrun vt) ps w last [] root dynamic vs fs o in
+                   go r w' last' root'
+               end) ops w1 None root in
           let tr := to_tree leaf lto_basic l_sensitive py_strlen None fs final in
           match tr with
           | Ok t =>
